@@ -8,6 +8,12 @@
    Not modelled (open finding lang:for-bound-reevaluated): the emitted `for (i = lo; i < hi; i++)` re-evaluates hi before
    every iteration; the model evaluates the bounds once, as the language prescribes -- the two differ only when the body
    assigns a variable hi reads or hi has an effect, which the correspondence stream keeps apart.
+   Strings: (+ a b) on strings and str_concat are nl_str_concat(a, b), str_length nl_str_length(s), str_equals / == on strings
+   strcmp, str_contains strstr, char_at char_at(s, i), str_substring nl_str_substring(s, start, len), int_to_string
+   snprintf("%lld") into a buffer that holds every int64 (Back/IntFormatProofs.native_int_to_string_exact): all C calls, so
+   their operands are evaluated in the order [ord].  (== and != on two STRING operands are strcmp calls too; the model
+   evaluates the operands of EBin left to right whatever their type -- the correspondence stream never gives both operands of
+   a string comparison an effect.)
    Arrays: a literal is the C call dynarray_literal_int(n, e1, .., en) and (at a i) is nl_array_at_int(a, i), so their
    operands are evaluated in the order [ord] like the arguments of any other call; an index outside 0 <= i < length
    fails the assertion in dyn_array_get_int (src/runtime/dyn_array.c): abort().
@@ -19,7 +25,12 @@ Local Open Scope Z_scope.
 
 Inductive arg_order := LtoR | RtoL.
 
-Inductive nfault := NFAssert | NFSigfpe | NFSigfpeOv | NFOob.     (* NFOob: the runtime's index assertion fails: abort() *)
+Inductive nfault := NFAssert | NFSigfpe | NFSigfpeOv | NFOob | NFStrDomain.
+(* NFOob: the runtime's index assertion fails: abort().  NFStrDomain: a string builtin applied outside the domain on which the
+   engines agree -- NOT what the binary does there (char_at out of range: a message on stderr and the value 0; str_substring
+   with a negative operand: the empty string, with an operand of 2^32 and more: 64-bit arithmetic; a string operand longer
+   than 1 MiB: only its first 2^20 bytes are seen); the model stops, as Ref does, and nothing is claimed (findings
+   lang:char-at-out-of-range, lang:str-substring-u32, lang:native-string-1mib); the correspondence stream stays inside *)
 
 Inductive nres (A : Type) :=
   | NOk (a : A) (out : list N)
@@ -94,6 +105,28 @@ Definition nat_at (va vi : value) (out : list N) : nres value :=
   match va, vi with
   | VArr l, VInt k => match arr_get l k with Some z => NOk (VInt z) out | None => NFault NFOob out end
   | _, _ => NStuck
+  end.
+
+(* the string builtins once their operands have values: the reference's functions on the common domain (Ast) *)
+Definition nat_str1 (o : sop1) (v : value) : nopres :=
+  match o, v with
+  | SLen, VStr s => NOV (VInt (Z.of_nat (length s)))
+  | SOfInt, VInt z => NOV (VStr (print_Z z))
+  | _, _ => NOStuck
+  end.
+Definition nat_str2 (o : sop2) (a b : value) : nopres :=
+  match o, a, b with
+  | SPlus, VStr x, VStr y | SConcat, VStr x, VStr y =>
+      match concat_v x y with Some r => NOV (VStr r) | None => NOF NFStrDomain end
+  | SEquals, VStr x, VStr y => NOV (VBool (if list_eq_dec N.eq_dec x y then true else false))
+  | SContains, VStr x, VStr y => NOV (VBool (containsb x y))
+  | SCharAt, VStr x, VInt i => match char_at_v x i with Some c => NOV (VInt c) | None => NOF NFStrDomain end
+  | _, _, _ => NOStuck
+  end.
+Definition nat_substr (s st ln : value) : nopres :=
+  match s, st, ln with
+  | VStr x, VInt a, VInt b => match substr_v x a b with Some r => NOV (VStr r) | None => NOF NFStrDomain end
+  | _, _, _ => NOStuck
   end.
 
 Fixpoint nat_bind_params (ps : list (ident * ty)) (vs : list value) : option nenv :=
@@ -200,6 +233,27 @@ Fixpoint nat_expr (fuel : nat) (genv en : nenv) (e : expr) (out : list N) {struc
     | ELen a =>
         nbind (nat_expr fuel' genv en a out) (fun va out1 =>
           match va with VArr l => NOk (VInt (Z.of_nat (length l))) out1 | _ => NStuck end)
+    | EStr1 o a => nbind (nat_expr fuel' genv en a out) (fun v out1 => of_nopres (nat_str1 o v) out1)
+    | EStr2 o a b =>
+        match ord with
+        | LtoR =>
+            nbind (nat_expr fuel' genv en a out) (fun va out1 =>
+            nbind (nat_expr fuel' genv en b out1) (fun vb out2 => of_nopres (nat_str2 o va vb) out2))
+        | RtoL =>
+            nbind (nat_expr fuel' genv en b out) (fun vb out1 =>
+            nbind (nat_expr fuel' genv en a out1) (fun va out2 => of_nopres (nat_str2 o va vb) out2))
+        end
+    | ESubstr a b c =>
+        match ord with
+        | LtoR =>
+            nbind (nat_expr fuel' genv en a out) (fun va out1 =>
+            nbind (nat_expr fuel' genv en b out1) (fun vb out2 =>
+            nbind (nat_expr fuel' genv en c out2) (fun vc out3 => of_nopres (nat_substr va vb vc) out3)))
+        | RtoL =>
+            nbind (nat_expr fuel' genv en c out) (fun vc out1 =>
+            nbind (nat_expr fuel' genv en b out1) (fun vb out2 =>
+            nbind (nat_expr fuel' genv en a out2) (fun va out3 => of_nopres (nat_substr va vb vc) out3)))
+        end
     end
   end
 with nat_stmt (fuel : nat) (genv en : nenv) (s : stmt) (out : list N) {struct fuel} : nres (nctl * nenv) :=
